@@ -969,6 +969,7 @@ OPS: Dict[str, Tuple[str, Callable]] = {
     "existing metabolite by id": ("R1.add_metabolites({'b_c': 2})", lambda w, m, h: h["R1"].add_metabolites({"b_c": 2.0})),
     "subtract": ("R2.subtract_metabolites({c_c: 2})", lambda w, m, h: h["R2"].subtract_metabolites({h["mets"]["c_c"]: 2.0})),
     "scale": ("R2 *= 2", lambda w, m, h: _dunder(w, h["R2"], "__imul__", 2.0)),
+    "scale by zero": ("R2 *= 0", lambda w, m, h: _dunder(w, h["R2"], "__imul__", 0.0)),
     "reverse": ("R1 *= -1", lambda w, m, h: _dunder(w, h["R1"], "__imul__", -1.0)),
     "rule with a new gene": ("R1.gene_reaction_rule = 'g3 or g4'", lambda w, m, h: _set(h["R1"], "gene_reaction_rule", "g3 or g4")),
     "rule emptied": ("R1.gene_reaction_rule = ''", lambda w, m, h: _set(h["R1"], "gene_reaction_rule", "")),
@@ -1233,6 +1234,7 @@ def _effects():
     E.append(("R2.subtract_metabolites({c_c: 2})", None, OPS["subtract"][1], {M + "c_c._reaction": _cs(), R + "R2._metabolites": _cd(**{M + "b_c": -1.0})}, (), None))
     E.append(("R2.subtract_metabolites({c_c: 0.5})", None, lambda w, m, h: h["R2"].subtract_metabolites({h["mets"]["c_c"]: 0.5}), {R + "R2._metabolites": _cd(**{M + "b_c": -1.0, M + "c_c": 1.5})}, (), None))
     E.append(("R2 *= 2", None, OPS["scale"][1], {R + "R2._metabolites": _cd(**{M + "b_c": -2.0, M + "c_c": 4.0})}, (), None))
+    E.append(("R2 *= 0", None, OPS["scale by zero"][1], {R + "R2._metabolites": _cd(), M + "b_c._reaction": _cs(R + "R1"), M + "c_c._reaction": _cs()}, (), None))   # no entry with coefficient zero remains
     E.append(("R1 *= -1", None, OPS["reverse"][1], {R + "R1._metabolites": _cd(**{M + "a_c": 1.0, M + "b_c": -1.0}), R + "R1._lower_bound": -1000.0, R + "R1._upper_bound": 10.0}, (), None))
     E.append(("R1.gene_reaction_rule = 'g3 or g4'", None, OPS["rule with a new gene"][1],
               {G + "g1._reaction": _cs(), G + "g2._reaction": _cs(R + "R2"), G + "g3._reaction": _cs(R + "R1", R + "R2"), Mo + "genes": ("list", (G + "g1", G + "g2", G + "g3", G + "g4")), R + "R1._genes": _cs(G + "g3", G + "g4"), R + "R1._gpr": ("rule", "g3 or g4"),
